@@ -1,18 +1,19 @@
-\* generation (thorough): every transition; period 3 (offsets boundary / boundary+1 / boundary-1), heights 0..13, BPCOUNT 2 or 3 (code rule),
-\* at most 1 content change per chain, one reorganisation and one restart / failed block per behaviour
+\* generation (thorough): every transition; period 2, heights 0..9, all four contents (rankings 1/2 x BPCOUNT 2/3, code rule),
+\* at most 1 content change per chain, any number of reorganisations / restarts / failed blocks
 SPECIFICATION Spec
 CONSTANTS
-  P = 3
-  MaxH = 13
+  P = 2
+  MaxH = 9
   Genesis <- Gen3
   Rankings <- Rank2
   Counts <- C23
+  ContentSet <- Every
   DefaultCount = 3
   MaxChanges = 1
   MaxLibLag = 0
   CountFix = FALSE
-  MaxReorgs = 1
-  MaxRestarts = 1
+  MaxReorgs = 99
+  MaxRestarts = 99
   Acts <- NoLibActs
 VIEW view
 ACTION_CONSTRAINT GenLog
